@@ -10,7 +10,7 @@ is a violation.  Helper modules: c05_peer (independent signer), c05_sites (live 
 """
 import random
 
-TRANSLATORS = ["sigschemes"]
+TRANSLATORS = ["sigschemes", "auth"]
 
 MANIFEST = {
     "text": "Proof: Tls.Auth (Lean model of every place where tlslite-ng accepts a proof of possession: ServerKeyExchange "
@@ -20,6 +20,9 @@ MANIFEST = {
             "user / PSK implies verify(end-entity key, offered scheme, signedBytes(this transcript)) resp. the SRP/PSK equations), "
             "signed-bytes injectivity with named bad events (forgery / hash collision), not_offered_scheme_rejected, "
             "wrong_key_type_rejected, checker_mismatch_fails, pha_chain_after_finished, srp_agreement. Tie: generated scheme tables; "
+            "the source's own structure regenerated from its AST on every run (translate/gen_auth.py -> Gen/AuthSrc.lean: ordered "
+            "verification events dominating every identity-recording site, fate of every verify() result, Checker decision structure, "
+            "checker-before-tickets) with kernel-decided gen_* theorems; "
             "correspondence of _sigHashesToList and of every site with live endpoints whose peer is a cooperating faulty endpoint "
             "(site x corruption class x key type x version); direct oracle from the property text on the same runs.",
     "note": "Trusted: Lean kernel, the harness, python-ecdsa/hashlib as used by the independent signer; unforgeability and collision "
